@@ -379,7 +379,7 @@ def gen_lists(ctx, data, n):
     files = dict(data)
     files["gen.cfg"] = CFG_L
     files["lists.ndjson"] = ""
-    r = ctx.tlc("Options", "Gen_OptionLists", "gen.cfg", mode="simulate", simulate=n, depth=12, workers=1,
+    r = ctx.tlc("Options", "Gen_OptionLists", "gen.cfg", mode="simulate", simulate=n, depth=22, workers=1,
                 files=files, timeout=1500, label="Gen_OptionLists[-simulate num=%d seed=%d]" % (n, ctx.seed))
     lists = lines_with(r, "LIST ")
     seen, out = set(), []
@@ -523,7 +523,7 @@ def evaluate_again(ctx, harness, exp, keys, boolnames, tag):
 
 def report_inproc(ctx, exp, bad):
     badset = set(bad)
-    for k in sorted(bad):
+    for k in sorted(bad, key=lambda x: (len(x[1]), x)):     # the smallest case represents its class
         d, o = bad[k]
         cls = {"check": "C20.inproc", "level": k[0], "diff": ",".join(d), "blame": ",".join(blame(k, badset))}
         ctx.violation(cls, {"lv": k[0], "args": list(k[1]), "where": "inproc"},
@@ -570,7 +570,7 @@ def evaluate_binary(ctx, thriftgo, exp, keys):
         if flaky:
             raise vlib.MachineryError("%d violating binary case(s) do not reproduce when run again, e.g. %r" % (len(flaky), flaky[0]))
     badset = set(bad)
-    for k in sorted(bad):
+    for k in sorted(bad, key=lambda x: (len(x[1]), x)):
         d, r = bad[k]
         cls = {"check": "C20.binary", "diff": ",".join(d), "blame": ",".join(blame(k, badset))}
         ctx.violation(cls, {"lv": k[0], "args": list(k[1]), "where": "binary"}, r,
@@ -580,7 +580,7 @@ def evaluate_binary(ctx, thriftgo, exp, keys):
     return bad
 
 
-def two_targets(ctx, harness, exp, boolnames):
+def two_targets(ctx, harness, exp, boolnames, bad):
     """Beyond the statement: two -g targets in one run share the naming-style objects.  The model's
     prediction for every pair of small target lists is replayed (args.Targets() over both, then backend
     1, then backend 2); a target that generates with settings its own list does not allow is a FINDING
@@ -603,7 +603,8 @@ def two_targets(ctx, harness, exp, boolnames):
                 got = got[:5] + (norm_out(pred)[5],)
             if got != norm_out(pred):
                 mismatch.append((a1, a2, which))
-            if got not in set(norm_out(x) for x in allowed):
+            if got not in set(norm_out(x) for x in allowed) and ("cli", tuple(args)) not in bad:
+                # (a target whose list misbehaves on its own is a verdict above, not a leak)
                 leaks.append("-g go:%s -g go:%s -> target %d generates with %s" % (
                     ",".join(a1), ",".join(a2), which,
                     "initialism correction " + ("off" if "ignore_initialisms" in got[1] else "on")))
@@ -760,7 +761,7 @@ def run(ctx, args):
     if leaked:
         ctx.notes.append("process-wide state: %d case(s) observe other settings when the naming-style singletons "
                          "are not reset between cases (e.g. %r)" % (len(leaked), leaked[0]))
-    two_targets(ctx, harness, exp, boolnames)
+    two_targets(ctx, harness, exp, boolnames, bad)
     # -------- real binary
     bk = binary_keys(keys, ctx.tier)
     if len(bk) < len(doc["names"]) * 3:
